@@ -645,6 +645,12 @@ func (pace *Pace) getNonce(paceConfig *PaceConfig, kKdf []byte) ([]byte, error) 
 		if err != nil {
 			return nil, fmt.Errorf("[getNonce] %w", err)
 		}
+
+		// the nonce is at least 128 bits (9303-11 4.4.3.1); an empty (or short) encrypted nonce decrypts to a
+		// value that does not depend on the password, so a device without the password could complete PACE
+		if len(nonceE) < 16 {
+			return nil, fmt.Errorf("[getNonce] encrypted nonce too short (%d bytes)", len(nonceE))
+		}
 	}
 
 	// decrypt the nonce (s)
